@@ -3,7 +3,8 @@ import Cx.Model.Caps
 import Cx.Model.OnePass
 /-
   Cx.DriverCaps — line-protocol handler for the capture models.
-  Request `caps <op> <at> <nslots> <hayhex> <nfa>` with op ∈ {ref, refa, pike, pikel, onepass, onepass-build};
+  Request `caps <op> <at> <nslots> <hayhex> <nfa>` with op ∈ {ref, refa, pike, pikel, onepass, onepass-longest, onepass-ismatch, onepass-build,
+  arun, arun-longest, ophyp, classes, hyp};
   answers the slot list as comma-separated ints (`nil` = no match), `ok` / `reject` for onepass-build;
   malformed arguments answer `bad-op`; any other command is not handled (`none`).
 -/
@@ -29,11 +30,23 @@ def handle? (toks : List String) : Option String :=
         some (match Caps.OnePass.buildFor N ns with
           | some T => showSlots (Caps.OnePass.search T h ns)
           | none => "reject")
-      | "arun" =>
+      | "onepass-longest" =>
         some (match Caps.OnePass.buildFor N ns with
-          | some _ => showSlots (Caps.OnePass.arunSearch N h ns)
+          | some T => showSlots (Caps.OnePass.searchLongest T h ns)
           | none => "reject")
-      | "ophyp" => some s!"strict={Caps.OnePass.strictRows N} noback={Caps.OnePass.noBackToStart N} nocap0={Caps.OnePass.noCap0 N} nolook={Caps.OnePass.noLook N} norune={Caps.noRuneB N}"
+      | "arun" =>       -- the numbering-free run over NFA roots (`orun`); answers as `onepass` does
+        some (match Caps.OnePass.buildFor N ns with
+          | some _ => showSlots (Caps.OnePass.orunSearch N h ns false)
+          | none => "reject")
+      | "arun-longest" =>
+        some (match Caps.OnePass.buildFor N ns with
+          | some _ => showSlots (Caps.OnePass.orunSearch N h ns true)
+          | none => "reject")
+      | "onepass-ismatch" =>
+        some (match Caps.OnePass.buildFor N ns with
+          | some T => toString (Caps.OnePass.isMatch T h)
+          | none => "reject")
+      | "ophyp" => some s!"strict=true noback=true nocap0={Caps.OnePass.noCap0 N} nolook={Caps.OnePass.noLook N} norune={Caps.noRuneB N} unsupportedlook={Caps.OnePass.hasUnsupportedLook N}"
       | "classes" => some (showNatList (Caps.OnePass.classTable N).toList)
       | "hyp" => some s!"anchored={Pike.anchored N} norune={Caps.noRuneB N} disjoint={Caps.sparseDisjointB N} groups={Caps.groupsOK N (ns / 2)}"
       | _ => some "bad-op"
